@@ -1846,6 +1846,163 @@ def tie_frame(ctx, dist):
     return {'dis': dis, 'n': len(terms)}
 
 
+# ------------------------------------------------------------------ whole connections on a REAL Crazyflie object
+
+class _SyncLink:
+    """link object for a real Crazyflie driven synchronously: send_packet records; the harness answers"""
+
+    def __init__(self):
+        self.needs_resending = False
+        self.sent = []
+        self.closed = False
+
+    def send_packet(self, pk):
+        self.sent.append((pk.port, pk.channel, bytes(pk.data)))
+
+    def receive_packet(self, wait=0):
+        return None
+
+    def close(self):
+        self.closed = True
+
+
+def oracle_crazyflie_case(case):
+    """A REAL Crazyflie object (its own PlatformService, Log, Memory, Param and connection sequencing) through two or
+    three sessions; open_link's body is replayed without the dispatcher thread, packets are dispatched synchronously the
+    way _IncomingPacketHandler.run does.  The device answers every request; when requests of several ports are
+    outstanding, `prefer` decides which port is served first (one port slower than the other).  Session i is cut after
+    cut[i] answers (close_link / link error).  At EVERY `connected` callback both tables must be exactly the device's."""
+    from cflib.crazyflie import Crazyflie, State
+    from cflib.crtp.crtpstack import CRTPPacket
+    cf = Crazyflie(rw_cache=None)
+    snaps = []
+    cur = {}
+
+    def on_connected(uri):
+        bad = check_table('log', cur['L'], cf.log.toc) if cf.log.toc is not None else 'log table is None'
+        bad = bad or check_table('param', cur['P'], cf.param.toc)
+        snaps.append((cur['sn'], bad))
+    cf.connected.add_callback(on_connected)
+
+    def dispatch(port, chan, data):
+        pk = CRTPPacket()
+        pk.set_header(port, chan)
+        pk.data = bytes(data)
+        cf.packet_received.call(pk)
+        for cb in [c for c in cf.incoming.cb if c.port == (pk.port & c.port_mask) and c.channel == (pk.channel & c.channel_mask)]:
+            try:
+                cb.callback(pk)
+            except Exception as e:  # noqa
+                cur.setdefault('exc', []).append('%s: %s' % (type(e).__name__, e))
+
+    def fail(klass, detail):
+        return {'class': klass, 'case': case, 'detail': detail, 'observed': detail,
+                'expected': 'at every connected callback both tables are exactly the device tables'}
+    try:
+        for sn, sess in enumerate(case['sessions']):
+            ver = sess['ver']
+            L = [ditem_unjson(d) for d in sess['log']]
+            P = [ditem_unjson(d) for d in sess['param']]
+            cur.update(L=L, P=P, sn=sn)
+            cur.pop('exc', None)
+            ldev = fk.PyDev(raw_items('log', L), sess['crc_log'])
+            pdev = fk.PyDev(raw_items('param', P), sess['crc_param'])
+            link = _SyncLink()
+            # Crazyflie.open_link without get_link_driver and without starting the dispatcher thread
+            cf.connection_requested.call('fake://0')
+            cf.state = State.INITIALIZED
+            cf.link_uri = 'fake://0'
+            cf.link = link
+            cf.packet_received.add_callback(cf._check_for_initial_packet_cb)
+            cf._start_connection_setup()
+            answered = set()
+            n_ans = 0
+            nconn0 = len(snaps)
+            for step in range(len(L) + len(P) + 60):
+                if sess.get('cut') is not None and n_ans >= sess['cut']:
+                    break
+                pending = [(i, t) for i, t in enumerate(link.sent) if i not in answered and
+                           ((t[0], t[1]) in ((15, 1), (13, 1), (5, 1), (5, 0), (2, 0), (4, 0)))]
+                pending = [(i, t) for i, t in pending if not (t[0] == 5 and t[1] == 1 and t[2][:1] != b'\x05')]
+                if not pending or len(snaps) > nconn0:
+                    break
+                pref = sess.get('prefer', 'fifo')
+                pick = pending[0]
+                if pref != 'fifo':
+                    want = 5 if pref == 'log' else 2
+                    first = [x for x in pending if x[1][0] == want or (want == 2 and x[1][0] == 4)]
+                    if first:
+                        pick = first[0]
+                i, (port, chan, data) = pick
+                answered.add(i)
+                n_ans += 1
+                r = None
+                if (port, chan) == (15, 1):
+                    r = MAGIC + b'\0'
+                elif (port, chan) == (13, 1) and data[:1] == b'\x00':
+                    r = bytes([0, ver])
+                elif (port, chan) == (5, 1):
+                    r = bytes([5, 0, 0])
+                elif (port, chan) == (5, 0):
+                    r = ldev.reply_fw(ver, data)
+                elif (port, chan) == (2, 0):
+                    r = pdev.reply_fw(ver, data)
+                elif (port, chan) == (4, 0) and data[:1] == b'\x01':
+                    r = bytes([1, 0])                            # no memories
+                if r is not None:
+                    dispatch(port, chan, r)
+            if cur.get('exc'):
+                return fail('connection_setup_raises', 'session %d: %s' % (sn, cur['exc'][0]))
+            for (s_, bad) in snaps[nconn0:]:
+                if bad:
+                    return fail('table_incomplete_at_connected', 'session %d: inside the connected callback: %s' % (s_, bad))
+            if sess.get('cut') is None and len(snaps) == nconn0:
+                return fail('connected_never_signalled', 'session %d: all requests answered, connected not signalled' % sn)
+            if sess.get('end', 'close') == 'close':
+                cf.close_link()
+            else:
+                cf._link_error_cb('link lost')
+        return None
+    finally:
+        try:
+            cf.link = None
+            cf.link_statistics.stop()                   # the latency ping thread is not a daemon
+            cf.param.param_updater.close()
+        except Exception:  # noqa
+            pass
+
+
+def gen_crazyflie_cases(ctx, deep):
+    rng = ctx.rng
+    out = []
+    sizes = [(12, 2), (2, 12), (6, 6)]
+    for k in range(ctx.scale(30, 200) * (2 if deep else 1)):
+        nl, npar = sizes[k % 3]
+        ver = rng.choice([3, 7])
+        total = nl + npar + 8
+        def tabs():
+            L = gen_items(rng, 'log', nl, ver >= 4)
+            P = gen_items(rng, 'param', npar, ver >= 4)
+            for it in P:
+                it['ext'] = False
+            for it in L + P:                              # request_update_of_all_params splits complete names at '.'
+                it['group'] = bytes(it['group']).replace(b'.', b'_')
+                it['name'] = bytes(it['name']).replace(b'.', b'_')
+            if len({(bytes(i['group']), bytes(i['name'])) for i in P}) < len(P) or len({(bytes(i['group']), bytes(i['name'])) for i in L}) < len(L):
+                return tabs()
+            return [ditem_json(i) for i in L], [ditem_json(i) for i in P]
+        sessions = []
+        nsess = 2 + (k % 5 == 0)
+        for sn in range(nsess):
+            L, P = tabs()
+            last = sn == nsess - 1
+            sessions.append({'ver': ver, 'log': L, 'param': P, 'crc_log': rng.getrandbits(32), 'crc_param': rng.getrandbits(32),
+                             'cut': None if last else (k // 3 + sn * 7) % total, 'end': 'close' if k % 2 else 'error',
+                             'prefer': ['fifo', 'log', 'param'][(k // 2 + sn) % 3]})
+        out.append({'kind': 'crazyflie', 'sessions': sessions})
+    return out
+
+
 # ------------------------------------------------------------------ lookups
 
 def impl_lookups(toc_lists_, queries):
@@ -2175,6 +2332,8 @@ def _run_oracle_case(case):
             return oracle_setup_case(case)
         if case.get('kind') == 'frame':
             return oracle_frame_case(case)
+        if case.get('kind') == 'crazyflie':
+            return oracle_crazyflie_case(case)
         return oracle_fetch_case(case)
     except Exception as e:  # noqa
         import traceback
@@ -2194,7 +2353,7 @@ def corpus_cases():
 def oracle(ctx, deep=False):
     fails = []
     n = 0
-    for case in corpus_cases() + _mk_oracle_cases(ctx, deep) + gen_log_oracle_cases(ctx, deep) + gen_sessions_cases(ctx, deep) + gen_versions_cases(ctx, deep) + gen_setup_cases(ctx, deep) + gen_frame_cases(ctx, deep):
+    for case in corpus_cases() + _mk_oracle_cases(ctx, deep) + gen_log_oracle_cases(ctx, deep) + gen_sessions_cases(ctx, deep) + gen_versions_cases(ctx, deep) + gen_setup_cases(ctx, deep) + gen_frame_cases(ctx, deep) + gen_crazyflie_cases(ctx, deep):
         n += 1
         f = _run_oracle_case(case)
         if f:
